@@ -225,7 +225,6 @@ def strictEl : List (Expr × List Stmt) → Bool
   | [] => true
   | (e, body) :: rest => strictE e && strictSs body && strictEl rest
 end
-
 end Tsh.PT
 
 /-! ### calls agree with the signatures of the functions they name -/
@@ -301,5 +300,92 @@ def sigEl (F : List Sig) : List (Expr × List Stmt) → Bool
 end
 
 def declareAll (F : List Sig) (ss : List Stmt) : List Sig := ss.foldl declare F
+
+/-! ### variables: every use is of a variable that a definition, parameter list or loop header visible at that place
+    introduced, with the type it was introduced with
+
+`Γ` is the list of the variables visible at a place (a `Var` carries its stored name, its type and whether it is a global).
+A block's definitions end with the block, a function body starts from the globals and the parameters. -/
+
+mutual
+def useE (Γ : List Var) : Expr → Bool
+  | .boolLit _ | .intLit _ | .strLit _ | .input none | .bad _ => true
+  | .varEval v => Γ.contains v
+  | .unary _ x _ | .group x | .len x | .itoa x | .exists_ x | .read x | .input (some x) => useE Γ x
+  | .binary _ l r | .compare _ l r | .logical _ l r => useE Γ l && useE Γ r
+  | .call _ _ args => useEs Γ args
+  | .app _ args none => useEs Γ args
+  | .app _ args (some nx) => useEs Γ args && useE Γ nx
+  | .sliceNew _ vals => useEs Γ vals
+  | .sliceEval v i _ => useE Γ v && useE Γ i
+  | .substr v a none => useE Γ v && useE Γ a
+  | .substr v a (some b) => useE Γ v && useE Γ a && useE Γ b
+  | .copy dst src => Γ.contains dst && useE Γ src
+  | .write p d none => useE Γ p && useE Γ d
+  | .write p d (some a) => useE Γ p && useE Γ d && useE Γ a
+
+def useEs (Γ : List Var) : List Expr → Bool
+  | [] => true
+  | e :: rest => useE Γ e && useEs Γ rest
+end
+
+/-- the variables visible after a statement of a list -/
+def declared (Γ : List Var) : Stmt → List Var
+  | .varDef vars _ | .varDefCall vars _ => vars ++ Γ
+  | _ => Γ
+
+/-- a `for … range` loop reaches the converters as a plain loop over a counter that the loop itself introduces
+    (`idx = 0; idx < len(x); idx = idx + 1`): the counter, recognised by that shape -/
+def rangeIdx : Option Stmt → Expr → Option Var
+  | some (.assign [idx] [.intLit 0]), .compare _ (.varEval idx') (.len _) => if idx == idx' then some idx else none
+  | _, _ => none
+
+/-- … and the element variable, which the loop body starts by setting from the counter -/
+def rangeElem (idx : Var) : List Stmt → Option Var
+  | .assign [v] [.sliceEval _ (.varEval i) _] :: _ => if i == idx then some v else none
+  | .assign [v] [.substr _ (.varEval i) none] :: _ => if i == idx then some v else none
+  | _ => none
+
+/-- the variables visible after an optional statement -/
+def declaredO (Γ : List Var) : Option Stmt → List Var
+  | some s => declared Γ s
+  | none => Γ
+
+/-- the variables a loop header brings in, for the condition, the step and the body -/
+def forVars (Γ : List Var) (init : Option Stmt) (cond : Expr) (body : List Stmt) : List Var :=
+  match rangeIdx init cond with
+  | some idx => (match rangeElem idx body with | some v => [v, idx] | none => [idx]) ++ Γ
+  | none => declaredO Γ init
+
+mutual
+def useS (Γ : List Var) : Stmt → Bool
+  | .varDef _ vals => useEs Γ vals
+  | .varDefCall _ call => useE Γ call
+  | .assign vars vals => vars.all Γ.contains && useEs Γ vals
+  | .assignCall vars call => vars.all Γ.contains && useE Γ call
+  | .sliceAssign v index value => Γ.contains v && useE Γ index && useE Γ value
+  | .funcDef _ _ _ params body => useSs (params ++ Γ.filter (·.global)) body
+  | .ret vals | .print vals => useEs Γ vals
+  | .ifS cond body elifs els => useE Γ cond && useSs Γ body && useEl Γ elifs && useSs Γ els
+  | .forS init cond incr body =>
+    ((rangeIdx init cond).isSome || useO Γ init) &&
+    useE (forVars Γ init cond body) cond && useO (forVars Γ init cond body) incr && useSs (forVars Γ init cond body) body
+  | .brk | .cont => true
+  | .panic e | .expr e => useE Γ e
+
+def useSs (Γ : List Var) : List Stmt → Bool
+  | [] => true
+  | s :: rest => useS Γ s && useSs (declared Γ s) rest
+
+def useO (Γ : List Var) : Option Stmt → Bool
+  | none => true
+  | some s => useS Γ s
+
+def useEl (Γ : List Var) : List (Expr × List Stmt) → Bool
+  | [] => true
+  | (e, body) :: rest => useE Γ e && useSs Γ body && useEl Γ rest
+end
+
+def declaredAll (Γ : List Var) (ss : List Stmt) : List Var := ss.foldl declared Γ
 
 end Tsh.PT
